@@ -122,24 +122,775 @@ theorem seq2_suffix {S L : Type} (get : S → L) (set : S → L → S) (lvalid :
       exact ⟨p1 ++ p2, by rw [List.append_assoc, ← e2, ← e1]⟩
     · exact ⟨p1, e1⟩
 
+/-! ### the line parsers -/
+
+
+theorem RL_parseChar_valid (cfg : Cfg) (s : RL) (c : Byte) :
+    (s.parseChar cfg c).1.valid = s.valid := by
+  unfold RL.parseChar
+  repeat' first | rfl | split | dsimp only
+
+theorem RL_loop_of_valid (cfg : Cfg) (s : RL) (b : Bytes) (h : (s.st == .valid) = true) :
+    RL.loop cfg s b = (s, b, false) := by
+  cases b <;> simp [RL.loop, h]
+
+theorem RL_loop_facts (cfg : Cfg) (a : Bytes) : ∀ s : RL,
+    (RL.loop cfg s a).1.valid = s.valid ∧
+    ((RL.loop cfg s a).2.2 = true → (RL.loop cfg s a).1.fail = true) ∧
+    ((RL.loop cfg s a).2.2 = false → s.fail = false → (RL.loop cfg s a).1.fail = false) := by
+  induction a with
+  | nil => intro s; simp [RL.loop]
+  | cons c cs ih =>
+    intro s
+    simp only [RL.loop]
+    by_cases h : (s.st == .valid) = true
+    · simp [h]
+    · by_cases h2 : (s.parseChar cfg c).2 = true
+      · simp only [h, h2, Bool.not_true, Bool.false_eq_true, if_false]
+        obtain ⟨i1, i2, i3⟩ := ih { (s.parseChar cfg c).1 with fail := false }
+        exact ⟨i1.trans (RL_parseChar_valid cfg s c), i2, fun hh _ => i3 hh rfl⟩
+      · simp [h, h2, RL_parseChar_valid]
+
+theorem RL_strong (cfg : Cfg) : Strong1 (RL.parse cfg) RL.valid RL.fail := by
+  apply strong1_of _ _ _ RL.done (RL.parse_seq cfg)
+  · intro l a hv hf
+    have F := RL_loop_facts cfg a l
+    unfold RL.parse
+    generalize RL.loop cfg l a = r at F
+    obtain ⟨r1, rr, rb⟩ := r
+    obtain ⟨F1, F2, F3⟩ := F
+    simp only at F1 F2 F3
+    cases rb with
+    | true => simp [RL.done, F1, hv, F2 rfl]
+    | false =>
+      have := F3 rfl hf
+      cases h : (r1.st == RLS.valid) <;> simp [RL.done, this, h]
+  · intro l hv hf hd
+    have hst : (l.st == RLS.valid) = true := by simpa [RL.done, hv, hf] using hd
+    refine ⟨{ l with valid := true }, ?_⟩
+    intro x
+    unfold RL.parse
+    rw [RL_loop_of_valid cfg l x hst]
+    simp [hst]
+
+theorem SL_parseChar_valid (cfg : Cfg) (s : SL) (c : Byte) :
+    (s.parseChar cfg c).1.valid = s.valid := by
+  unfold SL.parseChar SL.crStep
+  repeat' first | rfl | split | dsimp only
+
+theorem SL_loop_of_valid (cfg : Cfg) (s : SL) (b : Bytes) (h : (s.st == .valid) = true) :
+    SL.loop cfg s b = (s, b, false) := by
+  cases b <;> simp [SL.loop, h]
+
+theorem SL_loop_facts (cfg : Cfg) (a : Bytes) : ∀ s : SL,
+    (SL.loop cfg s a).1.valid = s.valid ∧
+    ((SL.loop cfg s a).2.2 = true → (SL.loop cfg s a).1.fail = true) ∧
+    ((SL.loop cfg s a).2.2 = false → s.fail = false → (SL.loop cfg s a).1.fail = false) := by
+  induction a with
+  | nil => intro s; simp [SL.loop]
+  | cons c cs ih =>
+    intro s
+    simp only [SL.loop]
+    by_cases h : (s.st == .valid) = true
+    · simp [h]
+    · by_cases h2 : (s.parseChar cfg c).2 = true
+      · simp only [h, h2, Bool.not_true, Bool.false_eq_true, if_false]
+        obtain ⟨i1, i2, i3⟩ := ih { (s.parseChar cfg c).1 with fail := false }
+        exact ⟨i1.trans (SL_parseChar_valid cfg s c), i2, fun hh _ => i3 hh rfl⟩
+      · simp [h, h2, SL_parseChar_valid]
+
+theorem SL_strong (cfg : Cfg) : Strong1 (SL.parse cfg) SL.valid SL.fail := by
+  apply strong1_of _ _ _ SL.done (SL.parse_seq cfg)
+  · intro l a hv hf
+    have F := SL_loop_facts cfg a l
+    unfold SL.parse
+    generalize SL.loop cfg l a = r at F
+    obtain ⟨r1, rr, rb⟩ := r
+    obtain ⟨F1, F2, F3⟩ := F
+    simp only at F1 F2 F3
+    cases rb with
+    | true => simp [SL.done, F1, hv, F2 rfl]
+    | false =>
+      have := F3 rfl hf
+      cases h : (r1.st == SLS.valid) <;> simp [SL.done, this, h]
+  · intro l hv hf hd
+    have hst : (l.st == SLS.valid) = true := by simpa [SL.done, hv, hf] using hd
+    refine ⟨{ l with valid := true }, ?_⟩
+    intro x
+    unfold SL.parse
+    rw [SL_loop_of_valid cfg l x hst]
+    simp [hst]
+
+theorem CH_sizeStep_vf (cfg : Cfg) (s : CH) (c : Byte) :
+    (CH.sizeStep cfg s c).1.valid = s.valid ∧ (CH.sizeStep cfg s c).1.fail = s.fail := by
+  unfold CH.sizeStep
+  repeat' first | exact ⟨rfl, rfl⟩ | split | dsimp only
+
+theorem CH_extStep_vf (cfg : Cfg) (s : CH) (c : Byte) :
+    (CH.extStep cfg s c).1.valid = s.valid ∧ (CH.extStep cfg s c).1.fail = s.fail := by
+  unfold CH.extStep
+  repeat' first | exact ⟨rfl, rfl⟩ | split | dsimp only
+
+/-- the `switch` of `chunk_header::parse_char` -/
+def CH_switch (cfg : Cfg) (s : CH) (c : Byte) : CH × Bool :=
+  match s.st with
+  | .sizeLs =>
+    if isBlank c then
+      let s := { s with ws := s.ws + 1 }
+      if s.ws > cfg.maxWs then ({ s with st := .errWs }, false) else (s, true)
+    else CH.sizeStep cfg { s with st := .size } c
+  | .size => CH.sizeStep cfg s c
+  | .extensionLs =>
+    if isBlank c then
+      let s := { s with ws := s.ws + 1 }
+      if s.ws > cfg.maxWs then (s, false) else (s, true)
+    else CH.extStep cfg { s with st := .extension } c
+  | .extension => CH.extStep cfg s c
+  | .lf => if c == 10 then ({ s with st := .valid }, true) else (s, false)
+  | _ => (s, false)
+
+theorem CH_switch_vf (cfg : Cfg) (s : CH) (c : Byte) :
+    (CH_switch cfg s c).1.valid = s.valid ∧ (CH_switch cfg s c).1.fail = s.fail := by
+  unfold CH_switch
+  split
+  · split
+    · dsimp only; split <;> exact ⟨rfl, rfl⟩
+    · exact CH_sizeStep_vf cfg _ c
+  · exact CH_sizeStep_vf cfg _ c
+  · split
+    · dsimp only; split <;> exact ⟨rfl, rfl⟩
+    · exact CH_extStep_vf cfg _ c
+  · exact CH_extStep_vf cfg _ c
+  · split <;> exact ⟨rfl, rfl⟩
+  · exact ⟨rfl, rfl⟩
+
+theorem CH_parseChar_vf (cfg : Cfg) (s : CH) (c : Byte) :
+    (s.parseChar cfg c).1.valid = s.valid ∧ (s.parseChar cfg c).1.fail = s.fail := by
+  have e : s.parseChar cfg c = CH_switch cfg
+      (if s.length + 1 > cfg.maxLine then { s with length := s.length + 1, st := .errLength }
+       else { s with length := s.length + 1 }) c := rfl
+  rw [e]
+  obtain ⟨h1, h2⟩ := CH_switch_vf cfg
+      (if s.length + 1 > cfg.maxLine then { s with length := s.length + 1, st := .errLength }
+       else { s with length := s.length + 1 }) c
+  rw [h1, h2]
+  split <;> exact ⟨rfl, rfl⟩
+
+theorem CH_parseChar_valid (cfg : Cfg) (s : CH) (c : Byte) :
+    (s.parseChar cfg c).1.valid = s.valid := (CH_parseChar_vf cfg s c).1
+
+theorem CH_parseChar_fail (cfg : Cfg) (s : CH) (c : Byte) :
+    (s.parseChar cfg c).1.fail = s.fail := (CH_parseChar_vf cfg s c).2
+
+theorem CH_loop_of_valid (cfg : Cfg) (s : CH) (b : Bytes) (h : (s.st == .valid) = true) :
+    CH.loop cfg s b = (s, b, false) := by
+  cases b <;> simp [CH.loop, h]
+
+theorem CH_loop_facts (cfg : Cfg) (a : Bytes) : ∀ s : CH,
+    (CH.loop cfg s a).1.valid = s.valid ∧
+    ((CH.loop cfg s a).2.2 = true → (CH.loop cfg s a).1.fail = true) ∧
+    ((CH.loop cfg s a).2.2 = false → s.fail = false → (CH.loop cfg s a).1.fail = false) := by
+  induction a with
+  | nil => intro s; simp [CH.loop]
+  | cons c cs ih =>
+    intro s
+    simp only [CH.loop]
+    by_cases h : (s.st == .valid) = true
+    · simp [h]
+    · by_cases h2 : (s.parseChar cfg c).2 = true
+      · simp only [h, h2, Bool.not_true, Bool.false_eq_true, if_false]
+        obtain ⟨i1, i2, i3⟩ := ih (s.parseChar cfg c).1
+        exact ⟨i1.trans (CH_parseChar_valid cfg s c), i2,
+          fun hh hf => i3 hh ((CH_parseChar_fail cfg s c).trans hf)⟩
+      · simp [h, h2, CH_parseChar_valid]
+
+theorem CH_strong (cfg : Cfg) : Strong1 (CH.parse cfg) CH.valid CH.fail := by
+  apply strong1_of _ _ _ CH.done (CH.parse_seq cfg)
+  · intro l a hv hf
+    have F := CH_loop_facts cfg a l
+    unfold CH.parse
+    generalize CH.loop cfg l a = r at F
+    obtain ⟨r1, rr, rb⟩ := r
+    obtain ⟨F1, F2, F3⟩ := F
+    simp only at F1 F2 F3
+    cases rb with
+    | true => simp [CH.done, F1, hv, F2 rfl]
+    | false =>
+      have := F3 rfl hf
+      cases h : (r1.st == CS.valid) <;> simp [CH.done, this, h]
+  · intro l hv hf hd
+    have hst : (l.st == CS.valid) = true := by simpa [CH.done, hv, hf] using hd
+    refine ⟨{ l with valid := true }, ?_⟩
+    intro x
+    unfold CH.parse
+    rw [CH_loop_of_valid cfg l x hst]
+    simp [hst]
+
+
+/-! ### message_headers: the `valid` flag is write-only -/
+
+
+/-- force the `valid` flag of a `message_headers::parse` result -/
+def setV (v : Bool) (r : MH × Bytes × Bool) : MH × Bytes × Bool :=
+  ({ r.1 with valid := v || r.2.2 }, r.2.1, r.2.2)
+
+/-- the LF stage of `MH.blank` -/
+def blankLf (x : MH) : Bytes → MH × Bytes × Bool
+  | [] => (x, [], false)
+  | d :: ds => if d != 10 then (x, d :: ds, false) else ({ x with valid := true }, ds, true)
+
+theorem blankLf_V (x : MH) (v : Bool) (buf : Bytes) :
+    blankLf { x with valid := v } buf = setV v (blankLf x buf) := by
+  cases buf with
+  | nil => simp [blankLf, setV]
+  | cons d ds =>
+    simp only [blankLf]
+    split <;> simp [setV]
+
+theorem MH_blank_eq (cfg : Cfg) (h : MH) (c : Byte) (cs : Bytes) :
+    MH.blank cfg h (c :: cs) =
+      if !h.blankCr && !isEol c then (h, c :: cs, false)
+      else if !(!h.blankCr && c == 13) && cfg.strict && !h.blankCr then (h, c :: cs, false)
+      else if !h.blankCr && c == 13 then blankLf { h with blankCr := true } cs
+      else blankLf h (c :: cs) := by
+  simp only [MH.blank]
+  split
+  · rfl
+  · split
+    · rfl
+    · by_cases h3 : (!h.blankCr && c == 13) = true
+      · simp only [h3, if_true]
+        cases cs <;> rfl
+      · simp only [h3]
+        rfl
+
+theorem MH_blank_V (cfg : Cfg) (h : MH) (v : Bool) (buf : Bytes) :
+    MH.blank cfg { h with valid := v } buf = setV v (MH.blank cfg h buf) := by
+  cases buf with
+  | nil => simp [MH.blank, setV]
+  | cons c cs =>
+    rw [MH_blank_eq, MH_blank_eq]
+    dsimp only
+    split
+    · simp [setV]
+    · split
+      · simp [setV]
+      · split
+        · exact blankLf_V { h with blankCr := true } v cs
+        · exact blankLf_V h v _
+
+theorem MH_commit_V (cfg : Cfg) (h : MH) (v : Bool) (f : FL) :
+    MH.commit cfg { h with valid := v } f =
+      ({ (MH.commit cfg h f).1 with valid := v }, (MH.commit cfg h f).2) := by
+  unfold MH.commit
+  dsimp only
+  split <;> rfl
+
+theorem MH_commit_valid (cfg : Cfg) (h : MH) (f : FL) : (MH.commit cfg h f).1.valid = h.valid := by
+  unfold MH.commit
+  dsimp only
+  split <;> rfl
+
+theorem MH_fresh_V (cfg : Cfg) (v : Bool) (h : MH) (buf : Bytes) :
+    MH.fresh cfg { h with valid := v } buf = setV v (MH.fresh cfg h buf) := by
+  induction h, buf using MH.fresh.induct cfg with
+  | case1 h => simp [MH.fresh, setV]
+  | case2 h d tail he =>
+    rw [MH.fresh, MH.fresh]
+    simp only [he, if_true]
+    exact MH_blank_V cfg h v _
+  | case3 h d tail he r hr =>
+    rw [MH.fresh, MH.fresh]
+    simp only [he, Bool.false_eq_true, if_false]
+    simp only [r] at hr
+    simp [hr, setV]
+  | case4 h d tail he r hr hemp =>
+    rw [MH.fresh, MH.fresh]
+    simp only [he, Bool.false_eq_true, if_false]
+    simp only [r] at hr hemp
+    simp [hr, hemp, setV]
+  | case5 h d tail he r hr hemp hc hcb =>
+    rw [MH.fresh, MH.fresh]
+    simp only [he, Bool.false_eq_true, if_false]
+    simp only [r, hc] at hr hemp hcb
+    simp only [hr, hemp, MH_commit_V, hcb, if_true]
+    simp [setV]
+  | case6 h d tail he r hr hemp hc hcb ih =>
+    rw [MH.fresh, MH.fresh]
+    simp only [he, Bool.false_eq_true, if_false]
+    simp only [r, hc] at hr hemp hcb ih
+    simp only [hr, hemp, MH_commit_V, hcb]
+    exact ih
+
+theorem MH_parse_V (cfg : Cfg) (v : Bool) (h : MH) (buf : Bytes) :
+    MH.parse cfg { h with valid := v } buf = setV v (MH.parse cfg h buf) := by
+  unfold MH.parse
+  dsimp only
+  split
+  · exact MH_blank_V cfg h v buf
+  · split
+    · cases buf with
+      | nil => simp [setV]
+      | cons c cs =>
+        dsimp only
+        by_cases hr : (!(FL.parse cfg h.field (c :: cs)).2.2) = true
+        · simp [hr, setV]
+        · by_cases hemp : (FL.parse cfg h.field (c :: cs)).2.1.isEmpty = true
+          · simp [hr, hemp, setV]
+          · simp only [hr, hemp, MH_commit_V]
+            by_cases hcb : (!(MH.commit cfg h (FL.parse cfg h.field (c :: cs)).1).2) = true
+            · simp [hcb, setV]
+            · simp only [hcb]
+              exact MH_fresh_V cfg v _ _
+    · exact MH_fresh_V cfg v h buf
+
+theorem MH_parse_valid (cfg : Cfg) (h : MH) (buf : Bytes) :
+    (MH.parse cfg h buf).1.valid = (h.valid || (MH.parse cfg h buf).2.2) := by
+  have e := MH_parse_V cfg h.valid h buf
+  have e' : ({ h with valid := h.valid } : MH) = h := rfl
+  rw [e'] at e
+  have := congrArg (fun r => r.1.valid) e
+  simpa [setV] using this
+
+theorem MH_parse_seq_aux (cfg : Cfg) (h' : MH) (v : Bool) (a b : Bytes)
+    (hv' : h'.valid = false) (hf : h'.field.fail = false) :
+    MH.parse cfg { h' with valid := v } (a ++ b) =
+      (let r := MH.parse cfg { h' with valid := v } a
+       if r.2.2 || r.1.field.fail || !r.2.1.isEmpty then (r.1, r.2.1 ++ b, r.2.2)
+       else MH.parse cfg r.1 b) := by
+  have hd : MH.done h' = false := by simp [MH.done, hf, hv']
+  have law := MH.parse_seq cfg h' a b hd
+  have hv := MH_parse_valid cfg h' a
+  rw [MH_parse_V cfg v h' (a ++ b), MH_parse_V cfg v h' a, law]
+  generalize MH.parse cfg h' a = r at hv
+  obtain ⟨r1, rr, rb⟩ := r
+  simp only [hv', Bool.false_or] at hv
+  simp only [MH.done, hv]
+  by_cases hc : (rb || r1.field.fail || !rr.isEmpty) = true
+  · simp only [hc, if_true, setV]
+  · have hrb : rb = false := by
+      cases rb
+      · rfl
+      · simp at hc
+    subst hrb
+    have := MH_parse_V cfg v r1 b
+    simp only [setV] at this
+    simp only [hc, Bool.false_eq_true, if_false, setV, Bool.or_false]
+    exact this.symm
+
+/-- the fragmentation law of `message_headers::parse` for every state whose field line has not failed,
+    whatever its `valid` flag (which `parse` never reads) -/
+theorem MH_parse_seq' (cfg : Cfg) (h : MH) (a b : Bytes) (hf : h.field.fail = false) :
+    MH.parse cfg h (a ++ b) =
+      (let r := MH.parse cfg h a
+       if r.2.2 || r.1.field.fail || !r.2.1.isEmpty then (r.1, r.2.1 ++ b, r.2.2)
+       else MH.parse cfg r.1 b) :=
+  MH_parse_seq_aux cfg { h with valid := false } h.valid a b rfl hf
+
+
+
+/-! ### rx_request / rx_response -/
+
+
+/-- the header phase of `rx_request::parse` -/
+def RQ_hdrs (cfg : Cfg) (q : RQ) (buf : Bytes) : RQ × Bytes × Bool :=
+  if q.headers.valid then ({ q with valid := true }, buf, true)
+  else
+    let r := MH.parse cfg q.headers buf
+    if !r.2.2 then ({ q with headers := r.1 }, r.2.1, false)
+    else ({ q with headers := r.1, valid := true }, r.2.1, true)
+
+theorem RQ_parse_eq (cfg : Cfg) :
+    RQ.parse cfg = seq2 RQ.line (fun q l => { q with line := l }) RL.valid (RL.parse cfg) (RQ_hdrs cfg) := by
+  funext q buf
+  unfold RQ.parse seq2 RQ_hdrs
+  cases hv : q.line.valid
+  · cases hr : (RL.parse cfg q.line buf).2.2 <;> simp [hr]
+  · simp
+
+theorem RQ_hdrs_line (cfg : Cfg) (q : RQ) (buf : Bytes) : (RQ_hdrs cfg q buf).1.line = q.line := by
+  unfold RQ_hdrs
+  split
+  · rfl
+  · dsimp only
+    split <;> rfl
+
+theorem RQ_hdrs_seq (cfg : Cfg) :
+    SeqLaw (RQ_hdrs cfg) (fun q => q.valid || q.headers.field.fail) := by
+  intro q a b hd
+  simp only [Bool.or_eq_false_iff] at hd
+  obtain ⟨hv, hf⟩ := hd
+  cases hh : q.headers.valid
+  · have law := MH_parse_seq' cfg q.headers a b hf
+    have hval := MH_parse_valid cfg q.headers a
+    simp only [RQ_hdrs, hh, Bool.false_eq_true, if_false, law]
+    generalize MH.parse cfg q.headers a = r at hval
+    obtain ⟨r1, rr, rb⟩ := r
+    simp only [hh, Bool.false_or] at hval
+    cases rb with
+    | true => simp
+    | false =>
+      simp only [Bool.false_or, Bool.not_false, if_true, hv]
+      split
+      · simp
+      · simp [hval]
+  · simp [RQ_hdrs, hh]
+
+theorem RQ_hdrs_suffix (cfg : Cfg) : SuffixLaw (RQ_hdrs cfg) := by
+  intro q buf
+  unfold RQ_hdrs
+  split
+  · exact ⟨[], rfl⟩
+  · obtain ⟨p, hp⟩ := MH.parse_suffix cfg q.headers buf
+    refine ⟨p, ?_⟩
+    dsimp only
+    split <;> exact hp
+
+/-- the header phase of `rx_response::parse` -/
+def RP_hdrs (cfg : Cfg) (q : RP) (buf : Bytes) : RP × Bytes × Bool :=
+  if q.headers.valid then ({ q with valid := true }, buf, true)
+  else
+    let r := MH.parse cfg q.headers buf
+    if !r.2.2 then ({ q with headers := r.1 }, r.2.1, false)
+    else ({ q with headers := r.1, valid := true }, r.2.1, true)
+
+theorem RP_parse_eq (cfg : Cfg) :
+    RP.parse cfg = seq2 RP.line (fun q l => { q with line := l }) SL.valid (SL.parse cfg) (RP_hdrs cfg) := by
+  funext q buf
+  unfold RP.parse seq2 RP_hdrs
+  cases hv : q.line.valid
+  · cases hr : (SL.parse cfg q.line buf).2.2 <;> simp [hr]
+  · simp
+
+theorem RP_hdrs_line (cfg : Cfg) (q : RP) (buf : Bytes) : (RP_hdrs cfg q buf).1.line = q.line := by
+  unfold RP_hdrs
+  split
+  · rfl
+  · dsimp only
+    split <;> rfl
+
+theorem RP_hdrs_seq (cfg : Cfg) :
+    SeqLaw (RP_hdrs cfg) (fun q => q.valid || q.headers.field.fail) := by
+  intro q a b hd
+  simp only [Bool.or_eq_false_iff] at hd
+  obtain ⟨hv, hf⟩ := hd
+  cases hh : q.headers.valid
+  · have law := MH_parse_seq' cfg q.headers a b hf
+    have hval := MH_parse_valid cfg q.headers a
+    simp only [RP_hdrs, hh, Bool.false_eq_true, if_false, law]
+    generalize MH.parse cfg q.headers a = r at hval
+    obtain ⟨r1, rr, rb⟩ := r
+    simp only [hh, Bool.false_or] at hval
+    cases rb with
+    | true => simp
+    | false =>
+      simp only [Bool.false_or, Bool.not_false, if_true, hv]
+      split
+      · simp
+      · simp [hval]
+  · simp [RP_hdrs, hh]
+
+theorem RP_hdrs_suffix (cfg : Cfg) : SuffixLaw (RP_hdrs cfg) := by
+  intro q buf
+  unfold RP_hdrs
+  split
+  · exact ⟨[], rfl⟩
+  · obtain ⟨p, hp⟩ := MH.parse_suffix cfg q.headers buf
+    refine ⟨p, ?_⟩
+    dsimp only
+    split <;> exact hp
+
+
+/-! ### rx_chunk -/
+
+
+/-- the LF after the chunk data -/
+def CK_lf (k2 : CK) : Bytes → CK × Bytes × Bool
+  | [] => (k2, [], false)
+  | d :: ds => if d != 10 then (k2, d :: ds, false) else ({ k2 with valid := true }, ds, true)
+
+/-- the CRLF after the chunk data -/
+def CK_tail (cfg : Cfg) (k1 : CK) : Bytes → CK × Bytes × Bool
+  | [] => (k1, [], false)
+  | c :: cs =>
+    if !k1.dataCr && c == 13 then CK_lf { k1 with dataCr := true } cs
+    else if cfg.strict && !k1.dataCr then (k1, c :: cs, false)
+    else CK_lf k1 (c :: cs)
+
+theorem CK_parseData_eq (cfg : Cfg) (k : CK) (buf : Bytes) :
+    CK.parseData cfg k buf =
+      if buf.length > k.hdr.size - k.data.length then
+        CK_tail cfg { k with data := k.data ++ buf.take (k.hdr.size - k.data.length) }
+          (buf.drop (k.hdr.size - k.data.length))
+      else ({ k with data := k.data ++ buf }, [], false) := by
+  unfold CK.parseData
+  dsimp only
+  split
+  · generalize buf.drop (k.hdr.size - k.data.length) = rest
+    cases rest with
+    | nil => rfl
+    | cons c cs =>
+      dsimp only [CK_tail]
+      by_cases h1 : (!k.dataCr && c == 13) = true
+      · simp only [h1, if_true]
+        cases cs <;> rfl
+      · simp only [h1, Bool.false_eq_true, if_false]
+        by_cases h2 : (cfg.strict && !k.dataCr) = true
+        · simp only [h2, if_true]
+        · simp only [h2, Bool.false_eq_true, if_false]
+          rfl
+  · rfl
+
+theorem CK_lf_law (k2 : CK) (d : Byte) (ds b : Bytes) :
+    CK_lf k2 (d :: ds ++ b) =
+      ((CK_lf k2 (d :: ds)).1, (CK_lf k2 (d :: ds)).2.1 ++ b, (CK_lf k2 (d :: ds)).2.2) ∧
+    ((CK_lf k2 (d :: ds)).1.valid || !(CK_lf k2 (d :: ds)).2.1.isEmpty) = true := by
+  simp only [List.cons_append, CK_lf]
+  split <;> simp
+
+theorem CK_lf_hdr (k2 : CK) (x : Bytes) :
+    (CK_lf k2 x).1.hdr = k2.hdr ∧ (CK_lf k2 x).1.trailers = k2.trailers := by
+  cases x with
+  | nil => exact ⟨rfl, rfl⟩
+  | cons d ds =>
+    simp only [CK_lf]
+    split <;> exact ⟨rfl, rfl⟩
+
+theorem CK_tail_hdr (cfg : Cfg) (k1 : CK) (x : Bytes) :
+    (CK_tail cfg k1 x).1.hdr = k1.hdr ∧ (CK_tail cfg k1 x).1.trailers = k1.trailers := by
+  cases x with
+  | nil => exact ⟨rfl, rfl⟩
+  | cons c cs =>
+    simp only [CK_tail]
+    split
+    · exact CK_lf_hdr _ _
+    · split
+      · exact ⟨rfl, rfl⟩
+      · exact CK_lf_hdr _ _
+
+theorem CK_parseData_hdr (cfg : Cfg) (k : CK) (x : Bytes) :
+    (CK.parseData cfg k x).1.hdr = k.hdr ∧ (CK.parseData cfg k x).1.trailers = k.trailers := by
+  rw [CK_parseData_eq]
+  split
+  · exact CK_tail_hdr cfg _ _
+  · exact ⟨rfl, rfl⟩
+
+theorem CK_tail_law (cfg : Cfg) (k1 : CK) (c : Byte) (cs b : Bytes)
+    (hv : k1.valid = false) (hreq : k1.hdr.size - k1.data.length = 0) :
+    CK_tail cfg k1 (c :: cs ++ b) =
+      (let r := CK_tail cfg k1 (c :: cs)
+       if r.1.valid || !r.2.1.isEmpty then (r.1, r.2.1 ++ b, r.2.2) else CK.parseData cfg r.1 b) := by
+  simp only [List.cons_append, CK_tail]
+  split
+  · cases cs with
+    | nil =>
+      simp only [List.nil_append, CK_lf, hv, List.isEmpty_nil, Bool.not_true, Bool.or_self,
+        Bool.false_eq_true, if_false]
+      rw [CK_parseData_eq]
+      simp only [hreq]
+      cases b with
+      | nil => simp
+      | cons d ds => simp [CK_tail, CK_lf]
+    | cons d ds =>
+      obtain ⟨e1, e2⟩ := CK_lf_law { k1 with dataCr := true } d ds b
+      simp only [e2, if_true]
+      exact e1
+  · split
+    · simp
+    · obtain ⟨e1, e2⟩ := CK_lf_law k1 c cs b
+      simp only [List.cons_append] at e1
+      simp only [e1, e2, if_true]
+
+theorem CK_parseData_law (cfg : Cfg) (k : CK) (a b : Bytes) (hv : k.valid = false) :
+    CK.parseData cfg k (a ++ b) =
+      (let r := CK.parseData cfg k a
+       if r.1.valid || !r.2.1.isEmpty then (r.1, r.2.1 ++ b, r.2.2) else CK.parseData cfg r.1 b) := by
+  by_cases hlen : a.length > k.hdr.size - k.data.length
+  · -- the data ends inside `a`
+    obtain ⟨c, cs, hdrop⟩ : ∃ c cs, a.drop (k.hdr.size - k.data.length) = c :: cs := by
+      cases h : a.drop (k.hdr.size - k.data.length) with
+      | nil =>
+        have := congrArg List.length h
+        simp only [List.length_drop, List.length_nil] at this
+        omega
+      | cons c cs => exact ⟨c, cs, rfl⟩
+    have hlen' : (a ++ b).length > k.hdr.size - k.data.length := by
+      simp only [List.length_append]; omega
+    have ht : (a ++ b).take (k.hdr.size - k.data.length) = a.take (k.hdr.size - k.data.length) :=
+      List.take_append_of_le_length (by omega)
+    have hd : (a ++ b).drop (k.hdr.size - k.data.length) = c :: cs ++ b := by
+      rw [List.drop_append_of_le_length (by omega), hdrop]
+    rw [CK_parseData_eq cfg k (a ++ b), CK_parseData_eq cfg k a]
+    simp only [hlen, hlen', if_true, ht, hd, hdrop]
+    apply CK_tail_law
+    · exact hv
+    · simp only [List.length_append, List.length_take]
+      omega
+  · -- all of `a` is data
+    have hle : a.length ≤ k.hdr.size - k.data.length := by omega
+    rw [CK_parseData_eq cfg k a]
+    simp only [hlen, if_false, hv, List.isEmpty_nil, Bool.not_true, Bool.or_self, Bool.false_eq_true]
+    rw [CK_parseData_eq, CK_parseData_eq]
+    have hreq : k.hdr.size - (k.data ++ a).length = k.hdr.size - k.data.length - a.length := by
+      simp only [List.length_append]; omega
+    simp only [hreq]
+    by_cases hb : b.length > k.hdr.size - k.data.length - a.length
+    · have hab : (a ++ b).length > k.hdr.size - k.data.length := by
+        simp only [List.length_append]; omega
+      simp only [hb, hab, if_true, List.take_append, List.drop_append, List.take_of_length_le hle,
+        List.drop_eq_nil_of_le hle, List.nil_append, List.append_assoc]
+      simp only [hv]
+    · have hab : ¬ (a ++ b).length > k.hdr.size - k.data.length := by
+        simp only [List.length_append]; omega
+      simp only [hb, hab, if_false, List.append_assoc]
+      simp only [hv]
+
+theorem CK_lf_suffix (k2 : CK) (x : Bytes) : ∃ pre, x = pre ++ (CK_lf k2 x).2.1 := by
+  cases x with
+  | nil => exact ⟨[], rfl⟩
+  | cons d ds =>
+    simp only [CK_lf]
+    split
+    · exact ⟨[], rfl⟩
+    · exact ⟨[d], rfl⟩
+
+theorem CK_tail_suffix (cfg : Cfg) (k1 : CK) (x : Bytes) : ∃ pre, x = pre ++ (CK_tail cfg k1 x).2.1 := by
+  cases x with
+  | nil => exact ⟨[], rfl⟩
+  | cons c cs =>
+    simp only [CK_tail]
+    split
+    · obtain ⟨p, hp⟩ := CK_lf_suffix { k1 with dataCr := true } cs
+      exact ⟨c :: p, by rw [List.cons_append, ← hp]⟩
+    · split
+      · exact ⟨[], rfl⟩
+      · exact CK_lf_suffix k1 (c :: cs)
+
+theorem CK_parseData_suffix (cfg : Cfg) : SuffixLaw (CK.parseData cfg) := by
+  intro k buf
+  rw [CK_parseData_eq]
+  split
+  · obtain ⟨p, hp⟩ := CK_tail_suffix cfg
+      { k with data := k.data ++ buf.take (k.hdr.size - k.data.length) }
+      (buf.drop (k.hdr.size - k.data.length))
+    refine ⟨buf.take (k.hdr.size - k.data.length) ++ p, ?_⟩
+    rw [List.append_assoc, ← hp, List.take_append_drop]
+  · exact ⟨buf, by simp⟩
+
+/-- what `rx_chunk::parse` does after the chunk header: trailers for the last chunk, data otherwise -/
+def CK_body (cfg : Cfg) (k : CK) (buf : Bytes) : CK × Bytes × Bool :=
+  if k.isLast then
+    let r := MH.parse cfg k.trailers buf
+    if !r.2.2 then ({ k with trailers := r.1 }, r.2.1, false)
+    else ({ k with trailers := r.1, valid := true }, r.2.1, true)
+  else CK.parseData cfg k buf
+
+theorem CK_parse_eq (cfg : Cfg) :
+    CK.parse cfg = seq2 CK.hdr (fun k h => { k with hdr := h }) CH.valid (CH.parse cfg) (CK_body cfg) := by
+  funext k buf
+  unfold CK.parse seq2 CK_body
+  cases hv : k.hdr.valid
+  · cases hr : (CH.parse cfg k.hdr buf).2.2 <;> simp [hr]
+  · simp
+
+theorem CK_body_hdr (cfg : Cfg) (k : CK) (buf : Bytes) : (CK_body cfg k buf).1.hdr = k.hdr := by
+  unfold CK_body
+  split
+  · dsimp only
+    split <;> rfl
+  · exact (CK_parseData_hdr cfg k buf).1
+
+theorem CK_body_seq (cfg : Cfg) :
+    SeqLaw (CK_body cfg) (fun k => k.valid || k.trailers.field.fail) := by
+  intro k a b hd
+  simp only [Bool.or_eq_false_iff] at hd
+  obtain ⟨hv, hf⟩ := hd
+  cases hl : k.isLast
+  · have law := CK_parseData_law cfg k a b hv
+    obtain ⟨h1, h2⟩ := CK_parseData_hdr cfg k a
+    simp only [CK_body, hl, Bool.false_eq_true, if_false, law]
+    generalize CK.parseData cfg k a = r at h1 h2
+    obtain ⟨r1, rr, rb⟩ := r
+    simp only at h1 h2
+    have hl' : r1.isLast = false := by simp only [CK.isLast, h1]; exact hl
+    simp only [h2, hf, Bool.or_false, hl', Bool.false_eq_true, if_false]
+  · have law := MH_parse_seq' cfg k.trailers a b hf
+    simp only [CK_body, hl, if_true, law]
+    generalize MH.parse cfg k.trailers a = r
+    obtain ⟨r1, rr, rb⟩ := r
+    have hl' : (k.hdr.size == 0) = true := hl
+    cases rb with
+    | true => simp
+    | false =>
+      simp only [Bool.false_or, Bool.not_false, if_true, hv]
+      split
+      · simp
+      · simp [CK.isLast, hl']
+
+theorem CK_body_suffix (cfg : Cfg) : SuffixLaw (CK_body cfg) := by
+  intro k buf
+  unfold CK_body
+  split
+  · obtain ⟨p, hp⟩ := MH.parse_suffix cfg k.trailers buf
+    refine ⟨p, ?_⟩
+    dsimp only
+    split <;> exact hp
+  · exact CK_parseData_suffix cfg k buf
+
 end Cmp
 
 theorem RQ.parse_seq (cfg : Cfg) : SeqLaw (RQ.parse cfg) RQ.done := by
-  sorry
+  rw [Cmp.RQ_parse_eq]
+  apply Cmp.seq2_law RQ.line (fun q l => { q with line := l }) RL.valid RL.fail (RL.parse cfg)
+    (Cmp.RQ_hdrs cfg) (fun q => q.valid || q.headers.field.fail) RQ.done
+  · intro q
+    simp only [RQ.done]
+    cases q.valid <;> cases q.line.fail <;> rfl
+  · intro s l; rfl
+  · intro s l l'; rfl
+  · intro s l; rfl
+  · exact Cmp.RQ_hdrs_line cfg
+  · exact Cmp.RL_strong cfg
+  · exact Cmp.RQ_hdrs_seq cfg
 
 theorem RP.parse_seq (cfg : Cfg) : SeqLaw (RP.parse cfg) RP.done := by
-  sorry
+  rw [Cmp.RP_parse_eq]
+  apply Cmp.seq2_law RP.line (fun q l => { q with line := l }) SL.valid SL.fail (SL.parse cfg)
+    (Cmp.RP_hdrs cfg) (fun q => q.valid || q.headers.field.fail) RP.done
+  · intro q
+    simp only [RP.done]
+    cases q.valid <;> cases q.line.fail <;> rfl
+  · intro s l; rfl
+  · intro s l l'; rfl
+  · intro s l; rfl
+  · exact Cmp.RP_hdrs_line cfg
+  · exact Cmp.SL_strong cfg
+  · exact Cmp.RP_hdrs_seq cfg
 
 theorem CK.parse_seq (cfg : Cfg) : SeqLaw (CK.parse cfg) CK.done := by
-  sorry
+  rw [Cmp.CK_parse_eq]
+  apply Cmp.seq2_law CK.hdr (fun k h => { k with hdr := h }) CH.valid CH.fail (CH.parse cfg)
+    (Cmp.CK_body cfg) (fun k => k.valid || k.trailers.field.fail) CK.done
+  · intro k
+    simp only [CK.done]
+    cases k.valid <;> cases k.hdr.fail <;> rfl
+  · intro s l; rfl
+  · intro s l l'; rfl
+  · intro s l; rfl
+  · exact Cmp.CK_body_hdr cfg
+  · exact Cmp.CH_strong cfg
+  · exact Cmp.CK_body_seq cfg
 
 theorem RQ.parse_suffix (cfg : Cfg) : SuffixLaw (RQ.parse cfg) := by
-  sorry
+  rw [Cmp.RQ_parse_eq]
+  exact Cmp.seq2_suffix _ _ _ _ _ (RL.parse_suffix cfg) (Cmp.RQ_hdrs_suffix cfg)
 
 theorem RP.parse_suffix (cfg : Cfg) : SuffixLaw (RP.parse cfg) := by
-  sorry
+  rw [Cmp.RP_parse_eq]
+  exact Cmp.seq2_suffix _ _ _ _ _ (SL.parse_suffix cfg) (Cmp.RP_hdrs_suffix cfg)
 
 theorem CK.parse_suffix (cfg : Cfg) : SuffixLaw (CK.parse cfg) := by
-  sorry
+  rw [Cmp.CK_parse_eq]
+  exact Cmp.seq2_suffix _ _ _ _ _ (CH.parse_suffix cfg) (Cmp.CK_body_suffix cfg)
 
 end Via
